@@ -80,7 +80,7 @@ static void check_restrict(Case &c, hwloc_topology_t t, Draw &d, bool &nontrivia
 
 void h_run(Case &c) {
   Draw &d = c.head;
-  SpecOpts so; so.misc_keep = d.chance(2, 3); so.syn.max_pus = 64;
+  SpecOpts so; so.misc_keep = d.chance(2, 3); so.syn.max_pus = 64; so.gx_num = 1; so.gx_den = 5;
   TopoSpec sp = gen_topospec(d, so);
   if (sp.is_xml && d.chance(1, 2)) { sp.filters[HWLOC_OBJ_PCI_DEVICE] = HWLOC_TYPE_FILTER_KEEP_ALL; sp.filters[HWLOC_OBJ_OS_DEVICE] = HWLOC_TYPE_FILTER_KEEP_ALL; sp.filters[HWLOC_OBJ_BRIDGE] = d.chance(1, 2) ? HWLOC_TYPE_FILTER_KEEP_ALL : HWLOC_TYPE_FILTER_KEEP_IMPORTANT; }
   c.desc(sp.text());
